@@ -63,40 +63,11 @@ func (c *Ctx) roleFieldTable(fn *ssa.Function) roleTable {
 		if !ok {
 			continue
 		}
-		// cond true means role == X
+		// cond true means role == X: the condition is evaluated as a function of the role parameter
+		// (role, !role, role == k, (!role) == k, ... as left by inlined selector helpers)
 		var whenTrue *bool
-		switch cond := iff.Cond.(type) {
-		case *ssa.Parameter:
-			if cond == rp {
-				v := true
-				whenTrue = &v
-			}
-		case *ssa.BinOp:
-			var k *ssa.Const
-			if cond.X == ssa.Value(rp) {
-				k, _ = cond.Y.(*ssa.Const)
-			} else if cond.Y == ssa.Value(rp) {
-				k, _ = cond.X.(*ssa.Const)
-			}
-			if k != nil && k.Value != nil && k.Value.Kind() == constant.Bool {
-				v := constant.BoolVal(k.Value)
-				if cond.Op == token.NEQ {
-					v = !v
-				} else if cond.Op != token.EQL {
-					continue
-				}
-				whenTrue = &v
-			}
-		case *ssa.UnOp:
-			if cond.Op == token.NOT && cond.X == ssa.Value(rp) {
-				v := false
-				whenTrue = &v
-			}
-		case *ssa.ChangeType:
-			if cond.X == ssa.Value(rp) {
-				v := true
-				whenTrue = &v
-			}
+		if v, ok := roleCondValue(iff.Cond, rp, 0); ok {
+			whenTrue = &v
 		}
 		if whenTrue == nil {
 			continue
@@ -188,4 +159,57 @@ func roleArgOfCall(call *ssa.Call, callee *ssa.Function) ssa.Value {
 		}
 	}
 	return nil
+}
+
+
+// roleCondValue: cond is a boolean function of the role parameter alone; returns the value of the role for
+// which cond is true.
+func roleCondValue(cond ssa.Value, rp *ssa.Parameter, depth int) (bool, bool) {
+	if depth > 6 {
+		return false, false
+	}
+	switch x := cond.(type) {
+	case *ssa.Parameter:
+		if x == rp {
+			return true, true
+		}
+	case *ssa.ChangeType:
+		return roleCondValue(x.X, rp, depth+1)
+	case *ssa.Convert:
+		return roleCondValue(x.X, rp, depth+1)
+	case *ssa.UnOp:
+		if x.Op == token.NOT {
+			if v, ok := roleCondValue(x.X, rp, depth+1); ok {
+				return !v, true
+			}
+		}
+	case *ssa.BinOp:
+		if x.Op != token.EQL && x.Op != token.NEQ {
+			return false, false
+		}
+		var k *ssa.Const
+		var other ssa.Value
+		if c, ok := x.Y.(*ssa.Const); ok {
+			k, other = c, x.X
+		} else if c, ok := x.X.(*ssa.Const); ok {
+			k, other = c, x.Y
+		}
+		if k == nil || k.Value == nil || k.Value.Kind() != constant.Bool {
+			return false, false
+		}
+		v, ok := roleCondValue(other, rp, depth+1)
+		if !ok {
+			return false, false
+		}
+		// other is true exactly when role == v; cond: other == kv (or !=)
+		kv := constant.BoolVal(k.Value)
+		if x.Op == token.NEQ {
+			kv = !kv
+		}
+		if kv {
+			return v, true
+		}
+		return !v, true
+	}
+	return false, false
 }
